@@ -616,7 +616,9 @@ func (db *DB) all(of Object) (out []Object, err error) {
 	var o Object
 	var it *iterator
 
-	if it, err = db.Iterator(of); err != nil {
+	// the caller already holds the lock (a read lock must not be taken twice:
+	// a writer waiting in between would block both forever)
+	if it, err = db.iterator(of); err != nil {
 		return
 	}
 
@@ -708,7 +710,7 @@ func (db *DB) searchAll(o Object, field, operator string, value interface{}, con
 			uuids = append(uuids, s.ObjectIndex.ObjectIds[c.ObjectId])
 		}
 		iter = newIterator(db, o, uuids)
-	} else if iter, err = db.Iterator(o); err != nil {
+	} else if iter, err = db.iterator(o); err != nil {
 		return &Search{db: db, err: err}
 	}
 
@@ -772,6 +774,11 @@ func (db *DB) Iterator(of Object) (it *iterator, err error) {
 	db.RLock()
 	defer db.RUnlock()
 
+	return db.iterator(of)
+}
+
+// iterator returns an Object Iterator, the caller must hold the lock
+func (db *DB) iterator(of Object) (it *iterator, err error) {
 	var s *Schema
 	var uuids []string
 
